@@ -229,6 +229,12 @@ func c05run(c *h.Ctx, family string, in []byte, what string) {
 			c.Fail("", "a decoder allocated more than 4 MiB + 4096 bytes per input byte", map[string]interface{}{"case": det(), "allocated_bytes": used, "limit": limit})
 			continue
 		}
+		if err == nil && val == nil && (strings.HasSuffix(d.name, ".Unmarshal") || strings.HasSuffix(d.name, ".Decoder") || strings.HasPrefix(d.name, "wkt.")) && d.family != "mvt" {
+			// "returns either a value or an error": the one-shot and stream decoders and the text parsers have no way
+			// of saying NULL (the scanners do: Valid == false)
+			c.Fail("", "a decoder returned neither a value nor an error", map[string]interface{}{"case": det()})
+			continue
+		}
 		if err == nil {
 			c.Count("decoded_without_error", 1)
 			// WKB: re-encoding the value and decoding again is stable
